@@ -765,6 +765,8 @@ where
             self.qos2_publish_handled.clear();
             // the session ends with the connection: nothing is left to retransmit
             self.store.clear();
+            // ... and no outbound exchange is left to count against the peer's Receive Maximum
+            self.publish_send_count = 0;
 
             // Release packet IDs for PUBACK
             for packet_id in self.pid_puback.drain() {
